@@ -287,6 +287,145 @@ def scan():
     }
 
 
+# ---------------------------------------------------------------------------------- caller-owned arguments
+
+ENTRY_POINTS = (("api.py", "generate_data"), ("data_generator.py", "generate"))
+FRESH_CALLS = {"dict", "list", "set", "tuple", "frozenset", "sorted", "copy", "deepcopy", "copy.copy", "copy.deepcopy", "str", "int",
+               "bool", "len", "Path", "bytes"}
+
+
+def _mentions(expr, names):
+    return [n.id for n in ast.walk(expr) if isinstance(n, ast.Name) and n.id in names]
+
+
+def _alias_value(v, aliases):
+    """does `x = v` make x another name for an object reachable through `aliases`?"""
+    if isinstance(v, ast.Name):
+        return v.id in aliases
+    if isinstance(v, ast.BoolOp):  # `a or {}` keeps the caller's object when it is truthy
+        return any(_alias_value(x, aliases) for x in v.values)
+    if isinstance(v, ast.IfExp):
+        return _alias_value(v.body, aliases) or _alias_value(v.orelse, aliases)
+    if isinstance(v, ast.Starred):
+        return _alias_value(v.value, aliases)
+    return False
+
+
+def _param_names(fn):
+    a = fn.args
+    names = [x.arg for x in a.posonlyargs + a.args + a.kwonlyargs]
+    if a.vararg:
+        names.append(a.vararg.arg)
+    if a.kwarg:
+        names.append(a.kwarg.arg)
+    return [n for n in names if n not in ("self", "cls")]
+
+
+def _positional(fn):
+    a = fn.args
+    return [x.arg for x in a.posonlyargs + a.args if x.arg not in ("self", "cls")]
+
+
+def caller_arguments(trees):
+    """Everything the embedding entry points do with the objects their caller passes in.
+
+    Starting from every parameter of `generate_data` / `generate`, follow the object through simple aliases
+    (`x = p`, `x = p or {}`, `x = a if c else p`) and through calls of package functions (by position / keyword),
+    transitively.  Reports
+      cells    (function, parameter): the places the caller's objects reach
+      writes   (file, function, parameter, how): subscript store / del / augmented subscript / mutator method on such a name
+      escapes  (file, function, parameter, where): the object is stored in an attribute or handed to something the scan cannot follow
+    """
+    funcs = {}
+    for rel, t in trees.items():
+        for q, fn in _functions(t.body, []):
+            funcs.setdefault(q.split(".")[-1], []).append((rel, q, fn))
+    work, seen = [], set()
+    for rel, name in ENTRY_POINTS:
+        cands = [x for x in funcs.get(name, []) if x[0] == rel and x[1] == name]
+        if len(cands) != 1:
+            raise PinError(f"entry point {rel}:{name} not found")
+        for p in _param_names(cands[0][2]):
+            work.append((rel, name, p))
+    cells, writes, escapes = [], [], []
+    while work:
+        rel, q, param = work.pop()
+        if (rel, q, param) in seen:
+            continue
+        seen.add((rel, q, param))
+        cells.append((rel, q, param))
+        fn = [x for x in funcs[q.split(".")[-1]] if x[0] == rel and x[1] == q][0][2]
+        aliases = {param}
+        nodes = sorted(_own_nodes(fn), key=lambda n: (getattr(n, "lineno", 0), getattr(n, "col_offset", 0)))
+        unconditional = {id(x) for x in fn.body}
+        for m in nodes:
+            # (re)binding of names
+            if isinstance(m, ast.Assign) and len(m.targets) == 1 and isinstance(m.targets[0], ast.Name):
+                tgt = m.targets[0].id
+                if _alias_value(m.value, aliases):
+                    aliases.add(tgt)
+                elif tgt in aliases and id(m) in unconditional:
+                    # rebound, on every path, to something that is not the caller's object (e.g. dict(p or {}));
+                    # a rebinding inside an `if` / loop leaves the name an alias on the other paths
+                    aliases.discard(tgt)
+            if isinstance(m, ast.Assign):
+                for tg in m.targets:
+                    if isinstance(tg, ast.Attribute) and _alias_value(m.value, aliases):
+                        escapes.append((rel, q, param, "stored: " + ast.unparse(tg)))
+            # writes
+            tgts = []
+            if isinstance(m, ast.Assign):
+                tgts = m.targets
+            elif isinstance(m, (ast.AugAssign, ast.AnnAssign)):
+                tgts = [m.target]
+            elif isinstance(m, ast.Delete):
+                tgts = m.targets
+            for tg in tgts:
+                for el in (tg.elts if isinstance(tg, (ast.Tuple, ast.List)) else [tg]):
+                    if isinstance(el, ast.Subscript) and isinstance(el.value, ast.Name) and el.value.id in aliases:
+                        writes.append((rel, q, param, ("del " if isinstance(m, ast.Delete) else "store ") + ast.unparse(el)))
+                    if isinstance(el, ast.Attribute) and isinstance(el.value, ast.Name) and el.value.id in aliases:
+                        writes.append((rel, q, param, "attribute " + ast.unparse(el)))
+                    if isinstance(m, ast.AugAssign) and isinstance(el, ast.Name) and el.id in aliases:
+                        writes.append((rel, q, param, "augmented " + ast.unparse(m)))
+            if isinstance(m, ast.Call):
+                f = m.func
+                if isinstance(f, ast.Attribute) and isinstance(f.value, ast.Name) and f.value.id in aliases:
+                    if f.attr in MUTATORS or f.attr in ("write", "writelines", "truncate", "close"):
+                        if f.attr in MUTATORS:
+                            writes.append((rel, q, param, "call ." + f.attr + "(…)"))
+                    continue
+                # the object is passed on
+                passed = []
+                for i, a in enumerate(m.args):
+                    if _alias_value(a, aliases):
+                        passed.append((i, None))
+                for kw in m.keywords:
+                    if kw.value is not None and _alias_value(kw.value, aliases):
+                        passed.append((None, kw.arg))
+                if not passed:
+                    continue
+                fs = ast.unparse(f)
+                if fs in FRESH_CALLS or fs.split(".")[-1] in ("isinstance", "bool", "len", "str", "repr", "tuple", "list", "dict", "set"):
+                    continue
+                cands = funcs.get(fs.split(".")[-1], []) if isinstance(f, (ast.Name, ast.Attribute)) else []
+                cands = [c for c in cands if c[1].count(".") == (0 if isinstance(f, ast.Name) else c[1].count("."))]
+                if isinstance(f, ast.Name) and len(cands) == 1:
+                    crel, cq, cfn = cands[0]
+                    pos = _positional(cfn)
+                    allp = _param_names(cfn)
+                    for i, kw in passed:
+                        if i is not None and i < len(pos):
+                            work.append((crel, cq, pos[i]))
+                        elif kw is not None and kw in allp:
+                            work.append((crel, cq, kw))
+                        else:
+                            escapes.append((rel, q, param, "passed to " + fs + "(…)"))
+                else:
+                    escapes.append((rel, q, param, "passed to " + fs + "(…)"))
+    return sorted(set(cells)), sorted(set(writes)), sorted(set(escapes))
+
+
 @group("GlobalState", ("snowfakery/**/*.py",), ["C19"])
 def _global_state(_tree):
     s = scan()
@@ -309,6 +448,15 @@ def _global_state(_tree):
     out += _triples("externalWrites", s["external"], "calls changing process-wide state outside the package: (file, function, call)") if s["external"] else \
         "def externalWrites : List (String × String × String) := []\n"
 
+    # ---- caller-owned arguments of the embedding entry points
+    acells, awrites, aescapes = caller_arguments(trees)
+    out += _triples("callerArgCells", acells, "where the objects passed by the caller of generate_data / generate reach: (file, function, parameter)")
+    out += ("/-- writes to a caller-owned argument (or an alias of it): (file, function, parameter, how) -/\n"
+            "def callerArgWrites : List (String × String × String × String) :=\n  ["
+            + ",\n   ".join("(" + ", ".join(lean_str(x) for x in r) + ")" for r in awrites) + "]\n")
+    out += ("/-- a caller-owned argument stored in an attribute or handed to code the scan does not follow: (file, function, parameter, where) -/\n"
+            "def callerArgEscapes : List (String × String × String × String) :=\n  ["
+            + ",\n   ".join("(" + ", ".join(lean_str(x) for x in r) + ")" for r in aescapes) + "]\n")
     # ---- wiring facts of the process model
     tf = trees.get("template_funcs.py")
     sn = trees.get("utils/scrambled_numbers.py")
